@@ -188,6 +188,7 @@ type vfC07Inv struct { // one invocation of a closure
 type vfC07Ledger struct {
 	mu   sync.Mutex
 	seq  *atomic.Int64 // one counter for both hosts of a run
+	delay atomic.Int64 // how long (ns, virtual time) the closures of this host wait before answering a half-close
 	nh   int
 	live map[string]*vfC07H
 	all  []*vfC07H
@@ -232,6 +233,9 @@ func (l *vfC07Ledger) handler(h *vfC07H) network.StreamHandler {
 					inv.mu.Lock()
 					n := len(inv.nonces)
 					inv.mu.Unlock()
+					if d := time.Duration(l.delay.Load()); d > 0 {
+						time.Sleep(d) // a slow responder: the answer is written this long after the request ended
+					}
 					s.Write([]byte(fmt.Sprintf("E:%d:%d:%d\n", inv.serial, h.id, n)))
 					s.Close()
 				} else {
@@ -340,6 +344,7 @@ type vfC07Str struct {
 	inv      *vfC07Inv
 	lastUsed int64
 	used     bool         // the dialer has operated on the stream since the open
+	l        string       // listener
 	d        string       // dialer ("A" or "B")
 	dn       *vfC07Node   // the dialer's node
 	ll       *vfC07Ledger // the LISTENER's ledger
@@ -434,6 +439,8 @@ type vfC07Cfg struct {
 	Push  bool
 	Slots int
 	File  string
+	Hosts []string    // host names; nil = A, B
+	Links [][2]string // connections in the order they are made (the first name dials); nil = A-B
 }
 
 type vfC07ModelSlot struct {
@@ -444,19 +451,23 @@ type vfC07ModelSlot struct {
 }
 type vfC07ModelState struct {
 	Tbl map[string][]map[string]string `json:"tbl"`
-	K   map[string][]string            `json:"K"`
+	K   map[string]map[string][]string `json:"K"`
 	St  []vfC07ModelSlot               `json:"st"`
 	Out map[string]map[string]int      `json:"out"`
 	Inn map[string]map[string]int      `json:"inn"`
 }
 
-var vfC07Hosts = []string{"A", "B"}
-
-func vfC07Other(x string) string {
-	if x == "A" {
-		return "B"
+// time steps of the model (virtual time): just below / above the negotiation timeout, and one minute
+func vfC07Dur(w string) time.Duration {
+	switch w {
+	case "tm":
+		return basichost.DefaultNegotiationTimeout - 50*time.Millisecond
+	case "tp":
+		return basichost.DefaultNegotiationTimeout + 50*time.Millisecond
+	case "min":
+		return time.Minute
 	}
-	return "A"
+	return 0
 }
 
 type vfC07Run struct {
@@ -553,37 +564,54 @@ func (r *vfC07Run) checkBack(what string) {
 	}
 }
 
-func (r *vfC07Run) connect() {
+func (r *vfC07Run) connect(x, y string) {
 	ctx, cancel := context.WithTimeout(context.Background(), 20*time.Second)
 	defer cancel()
-	if err := r.a.h.Connect(ctx, peer.AddrInfo{ID: r.b.id, Addrs: []ma.Multiaddr{r.b.addr}}); err != nil {
+	a, b := r.nodes[x], r.nodes[y]
+	if err := a.h.Connect(ctx, peer.AddrInfo{ID: b.id, Addrs: []ma.Multiaddr{b.addr}}); err != nil {
 		r.t.Fatalf("connect: %v", err)
 	}
 	synctest.Wait()
 }
 
+func (r *vfC07Run) peers(x string) []string {
+	var out []string
+	for _, l := range r.cfg.Links {
+		if l[0] == x {
+			out = append(out, l[1])
+		} else if l[1] == x {
+			out = append(out, l[0])
+		}
+	}
+	return out
+}
+
 func (r *vfC07Run) setup() {
 	hub := newVfC07Hub()
-	var err error
-	if r.a, err = vfC07NewNode(hub, "127.0.0.1", r.cfg.Host); err != nil {
-		r.t.Fatal(err)
-	}
-	if r.b, err = vfC07NewNode(hub, "127.0.0.2", r.cfg.Host); err != nil {
-		r.t.Fatal(err)
-	}
-	if r.cfg.Host == "basic" && !r.cfg.Push {
-		// neither host supports identify push: the other one will never push its protocol changes to it
-		r.a.h.RemoveStreamHandler(identify.IDPush)
-		r.b.h.RemoveStreamHandler(identify.IDPush)
+	if r.cfg.Hosts == nil {
+		r.cfg.Hosts, r.cfg.Links = []string{"A", "B"}, [][2]string{{"A", "B"}}
 	}
 	seq := &atomic.Int64{}
-	r.nodes = map[string]*vfC07Node{"A": r.a, "B": r.b}
-	r.ls = map[string]*vfC07Ledger{"A": newVfC07Ledger(seq), "B": newVfC07Ledger(seq)}
-	r.l = r.ls["B"]
+	r.nodes, r.ls = map[string]*vfC07Node{}, map[string]*vfC07Ledger{}
+	for i, name := range r.cfg.Hosts {
+		n, err := vfC07NewNode(hub, fmt.Sprintf("127.0.0.%d", i+1), r.cfg.Host)
+		if err != nil {
+			r.t.Fatal(err)
+		}
+		if r.cfg.Host == "basic" && !r.cfg.Push {
+			// no host supports identify push: nobody will ever push its protocol changes to it
+			n.h.RemoveStreamHandler(identify.IDPush)
+		}
+		r.nodes[name], r.ls[name] = n, newVfC07Ledger(seq)
+	}
+	r.a, r.b, r.l = r.nodes["A"], r.nodes["B"], r.ls["B"]
 	r.slots = make([]*vfC07Str, r.cfg.Slots)
 	r.absent = make([]bool, r.cfg.Slots)
 	synctest.Wait()
-	r.connect()
+	// every host advertises the SAME list at this point (identical software, empty application tables)
+	for _, l := range r.cfg.Links {
+		r.connect(l[0], l[1])
+	}
 }
 
 func (r *vfC07Run) teardown() {
@@ -592,15 +620,16 @@ func (r *vfC07Run) teardown() {
 			x.s.Reset()
 		}
 	}
-	r.a.Close()
-	r.b.Close()
+	for _, name := range r.cfg.Hosts {
+		r.nodes[name].Close()
+	}
 	synctest.Wait()
 }
 
 // knowledge: what host x's peerstore lists for the other host (restricted to the model's ids)
-func (r *vfC07Run) knowledge(x string) []string {
+func (r *vfC07Run) knowledge(x, y string) []string {
 	arg, check := vfC07Owned(r.rep, "Peerstore.SupportsProtocols", vfC07P)
-	sup, _ := r.nodes[x].ps.SupportsProtocols(r.nodes[vfC07Other(x)].id, arg...)
+	sup, _ := r.nodes[x].ps.SupportsProtocols(r.nodes[y].id, arg...)
 	sup = append([]protocol.ID(nil), sup...)
 	check()
 	out := []string{}
@@ -637,7 +666,11 @@ func (r *vfC07Run) apply(op vfh.Op) {
 	case "forget":
 		x := vfC07At(op, "A")
 		arg, check := vfC07Owned(r.rep, "Peerstore.RemoveProtocols", vfC07P)
-		r.nodes[x].ps.RemoveProtocols(r.nodes[vfC07Other(x)].id, arg...)
+		of := op.S("of")
+		if of == "" {
+			of = "B"
+		}
+		r.nodes[x].ps.RemoveProtocols(r.nodes[of].id, arg...)
 		check()
 	case "learn":
 		for i, x := range r.slots { // the model enables learn only with every slot idle
@@ -646,9 +679,17 @@ func (r *vfC07Run) apply(op vfh.Op) {
 				r.slots[i] = nil
 			}
 		}
-		r.a.h.Network().ClosePeer(r.b.id)
+		lx, ly := op.S("x"), op.S("y")
+		if lx == "" {
+			lx, ly = "A", "B"
+		}
+		r.nodes[lx].h.Network().ClosePeer(r.nodes[ly].id)
 		synctest.Wait()
-		r.connect()
+		r.connect(lx, ly)
+	case "wait":
+		time.Sleep(vfC07Dur(op.S("w")))
+		synctest.Wait()
+		r.res.Inc("wait_"+op.S("w"), 1)
 	case "open":
 		r.open(op)
 	case "use":
@@ -685,7 +726,11 @@ func (r *vfC07Run) open(op vfh.Op) {
 	if d == "" {
 		d = "A"
 	}
-	dn, ln, ll := r.nodes[d], r.nodes[vfC07Other(d)], r.ls[vfC07Other(d)]
+	lname := op.S("l")
+	if lname == "" {
+		lname = "B"
+	}
+	dn, ln, ll := r.nodes[d], r.nodes[lname], r.ls[lname]
 	noCommon := !vfC07CommonNow(ll, req)
 	n0, n0d := ll.nInvs(), r.ls[d].nInvs()
 	openSeq := ll.seq.Add(1)
@@ -724,7 +769,7 @@ func (r *vfC07Run) open(op vfh.Op) {
 		}
 		return
 	}
-	x := &vfC07Str{s: s, rd: bufio.NewReader(s), req: req, openSeq: openSeq, d: d, dn: dn, ll: ll,
+	x := &vfC07Str{s: s, rd: bufio.NewReader(s), req: req, openSeq: openSeq, d: d, l: lname, dn: dn, ll: ll,
 		lazy: strings.HasSuffix(fmt.Sprintf("%T", s), "streamWrapper")}
 	r.slots[i] = x
 	// L1: bound to one of the requested ids
@@ -740,6 +785,10 @@ func (r *vfC07Run) open(op vfh.Op) {
 	}
 	if noCommon && len(invs) > 0 {
 		r.rep("handler-ran-without-common-protocol", "a handler ran although no registered matcher accepts any requested id", nil, nil)
+	}
+	if x.lazy && !ll.ever(s.Protocol()) {
+		// the statement allows an optimistic choice "from earlier knowledge" only; this listener never gave any
+		r.rep("optimistic-choice-never-advertised", fmt.Sprintf("host %s opened %v to host %s and got a stream bound optimistically to %s, which that listener has never registered nor accepted as listener (a negotiated open was due: success with an accepted id, or failure at the open)", d, req, lname, s.Protocol()), expRes, "lazy "+string(s.Protocol()))
 	}
 	if noCommon && !x.lazy {
 		r.rep("open-succeeded-without-common-protocol", "a negotiated open succeeded although no registered matcher accepts any requested id", "fail", string(s.Protocol()))
@@ -999,7 +1048,11 @@ func (r *vfC07Run) finish(op vfh.Op) {
 	}
 	var err error
 	var echo, fin string
-	x.s.SetDeadline(time.Now().Add(30 * time.Second)) // virtual; only a hang gets there
+	dl := vfC07Dur(op.S("dl"))
+	x.ll.delay.Store(int64(dl))
+	defer x.ll.delay.Store(0)
+	// the APPLICATION's own deadline: far beyond the responder's delay, so only a hang gets there (virtual time)
+	x.s.SetDeadline(time.Now().Add(dl + 30*time.Second))
 	if m == "wcw" {
 		_, err = x.s.Write([]byte(nonce + "\n"))
 	}
@@ -1020,6 +1073,9 @@ func (r *vfC07Run) finish(op vfh.Op) {
 	synctest.Wait()
 	invs := x.ll.invsFrom(n0)
 	r.res.Inc("finish_"+m+"_"+op.S("res"), 1)
+	if dl > 0 {
+		r.res.Inc("finish_delay_"+op.S("dl")+map[bool]string{true: "_optimistic", false: "_negotiated"}[x.lazy], 1)
+	}
 	if first {
 		r.res.Inc("finish_"+m+"_first_"+op.S("res"), 1)
 	}
@@ -1034,7 +1090,11 @@ func (r *vfC07Run) finish(op vfh.Op) {
 			}
 			r.rep(cls, fmt.Sprintf("half-close first failed (%v) but %d handler(s) ran", err, len(invs)), 0, len(invs))
 		}
-		r.mustReach(x, "half-close ("+m+") then read", err)
+		if dl > 0 && vfC07IsTimeout(err) && x.ll.acceptedThroughout(x.s.Protocol(), x.openSeq) {
+			r.rep("late-answer-cut-by-library-deadline", fmt.Sprintf("host %s half-closed (%s) a stream bound to %s and read; the handler answered after %v; the application's deadline is %v away, yet the read ended with %v", x.d, m, x.s.Protocol(), dl, dl+30*time.Second, err), "the answer", fmt.Sprint(err))
+		} else {
+			r.mustReach(x, "half-close ("+m+") then read", err)
+		}
 		if op.S("res") != "fail" {
 			r.rep("L2:use-result", "the half-close exchange failed where the model's rule succeeds: "+err.Error(), "ok", "fail")
 		}
@@ -1157,8 +1217,7 @@ func (r *vfC07Run) audit(raw json.RawMessage) {
 	}
 	// L1: every live stream is counted in the scope of the protocol it reports on its dialer (outbound);
 	// every established one also on its listener (inbound); nothing else is counted
-	for _, h := range vfC07Hosts {
-		o := vfC07Other(h)
+	for _, h := range r.cfg.Hosts {
 		expOut, expIn := map[protocol.ID]int{}, map[protocol.ID]int{}
 		live, liveIn, served := 0, 0, 0
 		for _, x := range r.slots {
@@ -1168,7 +1227,7 @@ func (r *vfC07Run) audit(raw json.RawMessage) {
 			if x.d == h {
 				expOut[x.s.Protocol()]++
 				live++
-			} else {
+			} else if x.l == h {
 				liveIn++
 				if x.inv != nil {
 					expIn[x.s.Protocol()]++
@@ -1221,15 +1280,18 @@ func (r *vfC07Run) audit(raw json.RawMessage) {
 		}
 		// L2: knowledge: equal to the model, and never an id the other host has not advertised or accepted
 		// as listener - whatever streams the other host opened towards this one
-		k := r.knowledge(h)
-		mk := append([]string(nil), m.K[h]...)
-		sort.Strings(mk)
-		if strings.Join(k, ",") != strings.Join(mk, ",") {
-			r.rep("L2:knowledge", fmt.Sprintf("host %s's peerstore lists other protocols of the other host than the model", h), mk, k)
-		}
-		for _, p := range k {
-			if !r.ls[o].ever(protocol.ID(p)) {
-				r.rep("L2:knowledge-never-advertised", fmt.Sprintf("host %s's peerstore lists %s for host %s, which never registered it nor accepted it as listener", h, p, o), nil, p)
+		// - and whatever this host learned about any THIRD host: one book per peer
+		for _, o := range r.peers(h) {
+			k := r.knowledge(h, o)
+			mk := append([]string(nil), m.K[h][o]...)
+			sort.Strings(mk)
+			if strings.Join(k, ",") != strings.Join(mk, ",") {
+				r.rep("L2:knowledge", fmt.Sprintf("host %s's peerstore lists other protocols of host %s than that host's history implies (the model)", h, o), mk, k)
+			}
+			for _, p := range k {
+				if !r.ls[o].ever(protocol.ID(p)) {
+					r.rep("L2:knowledge-never-advertised", fmt.Sprintf("host %s's peerstore lists %s for host %s, which never registered it nor accepted it as listener", h, p, o), nil, p)
+				}
 			}
 		}
 	}
@@ -1290,6 +1352,14 @@ func TestVerifC07Replay(t *testing.T) {
 			t.Fatal(err)
 		}
 		cfg := vfC07Cfg{Host: fmt.Sprint(hdr["host"]), Push: hdr["push"] == true, Slots: int(hdr["slots"].(float64)), File: filepath.Base(f)}
+		if hs, ok := hdr["hosts"].([]any); ok {
+			for _, h := range hs {
+				cfg.Hosts = append(cfg.Hosts, h.(string))
+			}
+			for _, l := range hdr["links"].([]any) {
+				cfg.Links = append(cfg.Links, [2]string{l.([]any)[0].(string), l.([]any)[1].(string)})
+			}
+		}
 		for _, w := range walks {
 			jobs = append(jobs, job{cfg, w})
 		}
